@@ -437,6 +437,10 @@ def apply_case(case, value=None):
 
 
 def run(check, tier, seed):
+    from pyvc.verify import verify
+    import contracts.valuemodel as VM
+    for c in VM.ALL:            # this property's contracts are stated over the executor's value model of Chunk / FmtStr: the real constructors and
+        verify(c, tier, check, prefix="C14")      # accessors must behave as that model says (same obligations as in C13, decided here too)
     deductive(check, tier)
     bounded(check, tier, seed)
     helpers(check, tier)
